@@ -522,7 +522,7 @@ def _list_muts(get_contents, get_opts, set_focus, get_focus):
 
     def set0(nd, env):
         c = get_contents(nd)
-        c[0] = (env.of(nd.x["ctyp"]), c[0][1])
+        c[0] = (env.of(nd.x["ctyp"]), get_opts(nd))
 
     def readd(nd, env):
         # put the subject child back (it may have been mutated / cached while detached)
@@ -556,13 +556,26 @@ def _mk_container(name, out, slot, build, extra=None, keys=(), mouse=(), opts=No
 def _pile_opt_toggle(nd, env):
     c = nd.w.contents
     w, _o = c[0]
+    if nd.x["ctyp"] == "box" and "box" not in w.sizing():
+        return  # the flow sibling moved to the front: box options would be an invalid configuration
     c[0] = (w, nd.cyc("o", [nd.w.options("weight", 2), nd.w.options("given", 2), nd.w.options("weight", 1)]))
 
 
 def _cols_opt_toggle(nd, env):
     c = nd.w.contents
     w, _o = c[0]
+    if nd.x["ctyp"] == "box" and "box" not in w.sizing():
+        return
     c[0] = (w, nd.cyc("o", [nd.w.options("given", 4), nd.w.options("weight", 3), nd.w.options("weight", 1)]))
+
+
+def _widget_list0(nd, env):
+    # deprecated list view: an in-place edit reaches the container through the MonitoredList callback
+    nd.w.widget_list[0] = env.of(nd.x["ctyp"])
+
+
+def _gf_cells(nd, env):
+    nd.w.cells = [*list(nd.w.cells)[1:], env.flow()]
 
 
 def _set_focus_old(nd, env):
@@ -573,7 +586,7 @@ def _set_focus_old(nd, env):
 _mk_container(
     "Pile", "flow", "flow",
     lambda kids, typ: urwid.Pile([kids[0], urwid.Edit("s:", "sib", edit_pos=0), urwid.Text("p3")]),
-    extra={"set_focus": _set_focus_old},
+    extra={"set_focus": _set_focus_old, "widget_list0": _widget_list0},
     keys=("down", "up"), mouse=((1, 1, 1),),
 )
 _mk_container(
@@ -586,7 +599,7 @@ _mk_container(
 _mk_container(
     "Columns", "flow", "flow",
     lambda kids, typ: urwid.Columns([kids[0], ("weight", 1, urwid.Edit("s:", "sib", edit_pos=0)), (2, urwid.Text("c3"))], dividechars=1),
-    extra={"options0": _cols_opt_toggle, "set_focus": _set_focus_old},
+    extra={"options0": _cols_opt_toggle, "set_focus": _set_focus_old, "widget_list0": _widget_list0},
     keys=("right", "left"), mouse=((1, 5, 0),),
 )
 _mk_container(
@@ -604,7 +617,7 @@ def _gf_cell_width(nd, env):
 _mk_container(
     "GridFlow", "flow", "flow",
     lambda kids, typ: urwid.GridFlow([kids[0], urwid.Edit("s:", ""), urwid.Text("g3")], 5, 1, 0, "left"),
-    extra={"cell_width": _gf_cell_width},
+    extra={"cell_width": _gf_cell_width, "cells": _gf_cells},
     keys=("right", "left", "down"), mouse=((1, 7, 0),),
 )
 
